@@ -228,6 +228,10 @@ impl G<'_> {
     // ---------------------------------------------------------------- types
 
     fn type_ref(&mut self) -> String {
+        if self.r.chance(8) {
+            // declared (if at all) only in nested scopes: unbound where it is used at module level
+            return pick(self.r, &["L0", "L1"]).to_string();
+        }
         if !self.types.is_empty() && self.r.chance(85) {
             self.types[self.r.below(self.types.len())].clone()
         } else {
@@ -339,6 +343,20 @@ impl G<'_> {
         }
         if self.r.chance(20) {
             out.push(format!("namespace NS {{ export interface Inner {} export type Alias = {}; }}", self.type_lit(2), self.ty(2)));
+        }
+        // the same names declared in several disjoint nested scopes (and nowhere at module level)
+        let nested = [0, 0, 0, 1, 2, 3, 5][self.r.below(7)];
+        for k in 0..nested {
+            let name = pick(self.r, &["L0", "L1"]);
+            let decl = if self.r.chance(50) { format!("interface {name} {}", self.type_lit(1)) } else { format!("type {name} = {};", self.ty(1)) };
+            out.push(match self.r.below(6) {
+                0 => format!("declare global {{ {decl} }}"),
+                1 => format!("function nest{k}() {{ {decl} }}"),
+                2 => format!("{{ {decl} }}"),
+                3 => format!("const nest{k} = () => {{ {decl} }};"),
+                4 => format!("class Nest{k} {{ m() {{ {decl} }} }}"),
+                _ => format!("if (cond) {{ {decl} }}"),
+            });
         }
         if self.r.chance(15) {
             out.push(format!("declare module 'm' {{ interface T0 {} }}", self.type_lit(1)));
